@@ -31,6 +31,7 @@ type Config struct {
 	ReplayDecs  []int
 	StopAtFirst bool
 	FallbackMs  int // one-shot cvc5 integer-encoding fallback limit
+	MaxWallS    int // wall-clock bound for the whole harness
 }
 
 func (c *Config) defaults() {
@@ -57,6 +58,9 @@ func (c *Config) defaults() {
 	}
 	if c.TimeoutMs == 0 {
 		c.TimeoutMs = 3000
+	}
+	if c.MaxWallS == 0 {
+		c.MaxWallS = 900
 	}
 }
 
@@ -182,7 +186,7 @@ func (m *Machine) branch(c *Term, kind string) bool {
 	}
 	if i < len(m.prefix) {
 		b := m.prefix[i].c == 0
-		m.decs = append(m.decs, decision{kind, 2, m.prefix[i].c, 0})
+		m.decs = append(m.decs, decision{kind, 2, m.prefix[i].c, m.prefix[i].v})
 		m.addPC(c, b)
 		return b
 	}
@@ -516,6 +520,13 @@ func (p *Program) Explore(cfg Config) *Result {
 					mu.Unlock()
 					return
 				}
+				if cfg.MaxWallS > 0 && time.Since(t0).Seconds() > float64(cfg.MaxWallS) {
+					res.Inconclusive = append(res.Inconclusive, fmt.Sprintf("wall-clock bound %ds exceeded with %d prefixes unexplored", cfg.MaxWallS, len(frontier)))
+					stop = true
+					cond.Broadcast()
+					mu.Unlock()
+					return
+				}
 				prefix := frontier[len(frontier)-1]
 				frontier = frontier[:len(frontier)-1]
 				active++
@@ -684,11 +695,27 @@ func (p *Program) runPath(cfg *Config, fn *ssa.Function, prefix []pdec, solver *
 	t.wake <- struct{}{}
 	pr := <-m.result
 	// need a model for samples / panic / deadlock reports: only when useful
-	if pr.panicked || (pr.abort != nil && pr.abort.kind == abortDeadlock) || len(m.forks) > 0 || len(prefix) == 0 {
+	isDeadlock := pr.abort != nil && pr.abort.kind == abortDeadlock
+	if pr.panicked || isDeadlock || len(m.forks) > 0 || len(prefix) == 0 {
 		func() {
-			defer func() { recover() }()
-			if cfg.ReplayVals == nil && len(m.ndVars) > 0 && (pr.abort == nil || pr.abort.kind == abortDeadlock) {
-				m.lastModel = m.currentModel()
+			defer func() {
+				if r := recover(); r != nil && (pr.panicked || isDeadlock) {
+					pr = pathResult{abort: &engineAbort{abortSolver, "solver failure while confirming a panic/deadlock path"}}
+				}
+			}()
+			if cfg.ReplayVals == nil && (pr.abort == nil || isDeadlock) {
+				// a panic or deadlock is only reported for a satisfiable path
+				// condition; anything else is an engine defect, never a finding
+				if len(m.pc) > 0 || len(m.ndVars) > 0 {
+					v := m.checkSat(m.ts.True)
+					if v != Sat && (pr.panicked || isDeadlock) {
+						pr = pathResult{abort: &engineAbort{abortSolver, "path condition not satisfiable (" + v.String() + ") on a panic/deadlock path"}}
+						return
+					}
+					if v == Sat && len(m.ndVars) > 0 {
+						m.lastModel = m.currentModel()
+					}
+				}
 			}
 		}()
 	}
